@@ -319,14 +319,14 @@ def run(prop, tier, seed, rep, std=True):
     hists = []
     # spec -> impl
     mh = model_histories(tier, rep)
-    take = mh if tier == "thorough" else rng.sample(mh, min(len(mh), 6000))
+    take = rng.sample(mh, min(len(mh), 6000 if tier == "quick" else 40000))
     for i, codes in enumerate(take):
         hists.append(concretise(rng, f"m{i}", codes))
     n_model = len(hists)
     # impl -> spec
-    for i in range(40 if tier == "quick" else 1500):
+    for i in range(40 if tier == "quick" else 600):
         hists.append(random_history(rng, f"r{i}", rng.choice((60, 200, 400)), rng.choice((1, 2, 5, 12))))
-    for i in range(40 if tier == "quick" else 1500):
+    for i in range(40 if tier == "quick" else 1000):
         hists.append(threshold_history(rng, f"t{i}"))
     groups = record(hx, hists)
     events = [e for g in groups for e in g]
